@@ -277,7 +277,9 @@ func checkC08(tier string) *Report {
 	w0 := worlds[0]
 	alpha := c08Alphabet(w0, tier)
 	dests := c08Dests()
-	x := &Explorer{Rep: rep, Prefix: alpha, Depth: -1, Revisit: true, RecordGraph: true}
+	// revisit probing only where the graph is small (quick); in the thorough universe every edge is probed once more by the
+	// tour on persistent instances, which subsumes it (and probing both ways costs hours of CPU there)
+	x := &Explorer{Rep: rep, Prefix: alpha, Depth: -1, Revisit: tier != "thorough", RecordGraph: true}
 	x.ModelInit = func(w *World) any { return pauseModel{P: map[string]bool{}, CC: map[string]bool{}} }
 	x.ModelStep = func(w *World, model any, op Op, res OpResult, pre, post sdk.Context) any {
 		return model.(pauseModel).step(w, op.Msg, res.Succeeded(), post)
